@@ -36,13 +36,47 @@ use std::rc::Rc;
 
 pub const META: Meta = Meta {
     level: "fault_enumeration",
-    rule: "mitm: honest XX handshake A<->B (identity key types ed25519/ed25519 with every byte x 8 one-bit flips; secp256k1/ecdsa, ecdsa/rsa, rsa/secp256k1 with masks {01,80} quick / 8 bits thorough) for each of the 3 messages: every single-byte flip, every truncation, 1-byte extension, drop, duplicate, reflect, replay from a previous session; thorough: all position pairs xor 01 of each message (ed25519). hostile: snow-built endpoint E (4 key types) against a real responder and a real initiator, announcing identity_key in {E, V (4 key types), empty, garbage} x identity_sig in {E over E-static, V's recorded signature over V-static, empty, garbage, E over E-static without the domain prefix, E over another static key, every 1-bit flip (ed25519) of the valid signature}. prologue: all ordered pairs over {empty, 01, 01 02, 'x'}. Non-trivial = every case except the untouched honest handshakes.",
+    rule: "mitm: honest XX handshake A<->B (identity key types ed25519/ed25519 with every byte x 8 one-bit flips; secp256k1/ecdsa, ecdsa/rsa, rsa/secp256k1 with masks {01,80} quick / 8 bits thorough) for each of the 3 messages: every single-byte flip, every truncation, 1-byte extension, drop, duplicate, reflect, replay from a previous session; thorough: all position pairs xor 01 of each message (ed25519). hostile: snow-built endpoint E (4 key types) against a real responder and a real initiator, announcing identity_key in {E, V (4 key types), empty, garbage} x identity_sig in {E over E-static, V's recorded signature over V-static, empty, garbage, E over E-static without the domain prefix, E over another static key, every 1-bit flip (ed25519) of the valid signature}. prologue: all ordered pairs over {empty, 01, 01 02, 'x'}; for lengths {1,31,32,33,63,64,65,88,128,255,256,1000}: an equal pair (control) and pairs differing only in the last, first or middle byte or only in length (strict prefix by one byte), in either order. Non-trivial = every case except the untouched honest handshakes.",
     explanation: "Fault enumeration (E3) against the real upgrade_inbound/upgrade_outbound futures. Oracle: a side returning Ok(peer) reports the PeerId of the party it completed the key exchange with (A, B or E), never V or a third id; the hostile endpoint is accepted only with its own identity key and a signature by that key over its static DH key with the domain prefix; different prologues make both sides fail; untouched handshakes succeed with the right ids; no panic, no hang after EOF.",
     assumptions: &["snow, x25519-dalek, ring trusted; manipulations are enumerated, not computational", "the adversary cannot use a static DH public key whose secret it does not hold (it could not complete the exchange)", "constant entropy seed: static DH keys identical in all cases, runs and replays; ephemeral keys vary"],
 };
 
 const ENTROPY: u64 = 0xC16;
 const PROLOGUES: [&[u8]; 4] = [&[], &[1], &[1, 2], b"x"];
+
+/// a prologue: an index into PROLOGUES, or {"len": L, "var": v}: the L-byte pattern, unchanged
+/// ("base"), with its last / first / middle byte changed, one byte shorter or one byte longer
+fn prologue_of(v: &Value) -> Vec<u8> {
+    if let Some(i) = v.as_u64() {
+        return PROLOGUES[i as usize % 4].to_vec();
+    }
+    let l = v["len"].as_u64().unwrap_or(0) as usize;
+    let mut p: Vec<u8> = (0..l).map(|i| ((i * 7 + 3) % 251) as u8).collect();
+    match v["var"].as_str().unwrap_or("base") {
+        "last" => {
+            if let Some(b) = p.last_mut() {
+                *b ^= 0x01
+            }
+        }
+        "first" => {
+            if let Some(b) = p.first_mut() {
+                *b ^= 0x80
+            }
+        }
+        "mid" => {
+            if l > 0 {
+                p[l / 2] ^= 0x10
+            }
+        }
+        "short" => {
+            p.pop();
+        }
+        "long" => p.push(0x5a),
+        _ => {}
+    }
+    p
+}
+const PROLOGUE_LENS: [usize; 12] = [1, 31, 32, 33, 63, 64, 65, 88, 128, 255, 256, 1000];
 
 thread_local! {
     /// all noise configurations (static DH key + signature) of this thread, created in a fixed
@@ -242,7 +276,8 @@ fn mitm_case(c: &Value) -> Result<String, String> {
 
 fn prologue_case(c: &Value) -> Result<String, String> {
     let (ka, kb) = (c["ka"].as_u64().unwrap_or(0) as usize, c["kb"].as_u64().unwrap_or(0) as usize);
-    let (pa, pb) = (PROLOGUES[c["pa"].as_u64().unwrap_or(0) as usize % 4], PROLOGUES[c["pb"].as_u64().unwrap_or(0) as usize % 4]);
+    let (pa, pb) = (prologue_of(&c["pa"]), prologue_of(&c["pb"]));
+    let (pa, pb) = (pa.as_slice(), pb.as_slice());
     let (id_a, id_b) = (keys::key(ka, 1).public().to_peer_id(), keys::key(kb, 2).public().to_peer_id());
     let s = session(cfg(ka, 1, pa)?, cfg(kb, 2, pb)?, 9, &Fault::None, None)?;
     judge(&s, id_a, id_b, "prologue")?;
@@ -499,6 +534,18 @@ pub fn run(ctx: &Ctx) -> Outcome {
                 }
             }
         }
+        // length-structured pairs: equal (control), and differing only in the last / first / middle
+        // byte or only in length (one a strict prefix of the other by one byte), either side
+        for l in PROLOGUE_LENS {
+            case(&mut out, true, json!({"kind":"prologue","ka":0,"kb":0,"pa":{"len":l,"var":"base"},"pb":{"len":l,"var":"base"}}));
+            for var in ["last", "first", "mid", "short", "long"] {
+                if l == 1 && var == "mid" {
+                    continue;
+                }
+                case(&mut out, false, json!({"kind":"prologue","ka":0,"kb":0,"pa":{"len":l,"var":"base"},"pb":{"len":l,"var":var}}));
+                case(&mut out, false, json!({"kind":"prologue","ka":0,"kb":0,"pa":{"len":l,"var":var},"pb":{"len":l,"var":"base"}}));
+            }
+        }
         // ---- hostile endpoint
         for victim in ["responder", "initiator"] {
             for ke in 0..4usize {
@@ -530,7 +577,7 @@ pub fn run(ctx: &Ctx) -> Outcome {
     });
     out.sample(json!({"kind":"hostile","ke":0,"kv":1,"victim":"responder","id":"V","sig":"V_recorded","note":"E completes the exchange with its own static key but announces V's key and V's (valid, recorded) signature over V's static key"}));
     if out.violations.is_empty() {
-        for (k, min) in [("mitm_untouched_A-ok_B-ok", 4u64), ("mitm_A-err_B-err", 1), ("mitm_A-ok_B-err", 1), ("prologue_prologue-equal-ok", 8), ("prologue_prologue-different-fails", 24), ("hostile_hostile-legit-accepted", 32), ("hostile_hostile-rejected", 100)] {
+        for (k, min) in [("mitm_untouched_A-ok_B-ok", 4u64), ("mitm_A-err_B-err", 1), ("mitm_A-ok_B-err", 1), ("prologue_prologue-equal-ok", 20), ("prologue_prologue-different-fails", 130), ("hostile_hostile-legit-accepted", 32), ("hostile_hostile-rejected", 100)] {
             if out.get(k) < min {
                 out.machinery(format!("vacuity: counter {k} = {} (< {min})", out.get(k)));
             }
